@@ -6,24 +6,25 @@ import (
 
 // Profile steers the script generator toward the steps that matter for one property.
 type Profile struct {
-	Name      string
-	MaxSteps  int
-	MinSteps  int
-	Weights   map[string]int // op -> weight
-	Defects   bool           // draw credential defects (C03)
-	MaxClient int
-	BigData   bool // payload lengths up to the largest datagram (C05)
-	Teardown  bool // RelayError / CloseServer ops (C15)
-	Odd       bool // odd Allocate options (C19)
-	MTU       bool // draw InboundMTU
-	V6        bool // allow the IPv6 listener variant
-	Streams   bool // some clients use a TCP control connection
-	SlowCB    bool // slow lifecycle callbacks
-	Coincide  bool // coincidence mode: equal timeouts so that expiries collide (C15/C18)
-	GenFail   bool // the relay address generator fails at a scripted call (a failed Allocate leaves nothing behind)
-	LongAlloc bool // allocation lifetime 2 h so that permission/channel horizons are not cut short (C07)
-	OddSometimes bool // draw per case whether the odd Allocate options are used
-	Fragments []string // structured fragments mixed into the random steps: perm, chan, alloc
+	Name         string
+	MaxSteps     int
+	MinSteps     int
+	Weights      map[string]int // op -> weight
+	Defects      bool           // draw credential defects (C03)
+	MaxClient    int
+	BigData      bool     // payload lengths up to the largest datagram (C05)
+	Teardown     bool     // RelayError / CloseServer ops (C15)
+	Odd          bool     // odd Allocate options (C19)
+	MTU          bool     // draw InboundMTU
+	V6           bool     // allow the IPv6 listener variant
+	Streams      bool     // some clients use a TCP control connection
+	SlowCB       bool     // slow lifecycle callbacks
+	RealGen      bool     // UDP relay sockets from the library's port-range generator over a tiny range
+	Coincide     bool     // coincidence mode: equal timeouts so that expiries collide (C15/C18)
+	GenFail      bool     // the relay address generator fails at a scripted call (a failed Allocate leaves nothing behind)
+	LongAlloc    bool     // allocation lifetime 2 h so that permission/channel horizons are not cut short (C07)
+	OddSometimes bool     // draw per case whether the odd Allocate options are used
+	Fragments    []string // structured fragments mixed into the random steps: perm, chan, alloc
 }
 
 var lifetimes = []int64{-1, -1, -1, 0, 1, 2, 30, 59, 60, 61, 300, 599, 600, 601, 1800, 3599, 3600, 3601, 86400, 1 << 31, 1<<32 - 1}
@@ -60,6 +61,9 @@ func genConfig(rt *rapid.T, p *Profile) Config {
 	}
 	if p.LongAlloc {
 		cfg.AllocLifetimeS = 7200
+	}
+	if p.RealGen && rapid.IntRange(0, 3).Draw(rt, "realGen") == 0 {
+		cfg.RealGenPorts = rapid.SampledFrom([]int{2, 3, 4, 8}).Draw(rt, "realGenPorts")
 	}
 	cfg.Strict = rapid.IntRange(0, 3).Draw(rt, "strict") == 0
 	maxc := p.MaxClient
@@ -328,7 +332,7 @@ func GenScript(rt *rapid.T, p *Profile) *Script {
 		}
 	}
 	for i := 0; i < n; i++ {
-		if len(p.Fragments) > 0 && rapid.IntRange(0, 39).Draw(rt, "crowd") == 0 {
+		if len(p.Fragments) > 0 && (sc.Cfg.InboundMTU == 0 || sc.Cfg.InboundMTU >= 1500) && rapid.IntRange(0, 39).Draw(rt, "crowd") == 0 {
 			// a crowd of peers on one allocation: permissions for 40-150 distinct hosts, a dozen per request
 			c := rapid.IntRange(0, len(sc.Cfg.Clients)-1).Draw(rt, "crowdClient")
 			total := rapid.SampledFrom([]int{40, 63, 64, 65, 66, 100, 128, 129, 150}).Draw(rt, "crowdSize")
